@@ -4,7 +4,7 @@ import copy
 import numpy as np
 import torch
 
-from harness import coqio, nets
+from harness import coqio, nets, protocols
 from harness.common import Check
 from translate import dispatch as t_disp, ops as t_ops
 
@@ -187,6 +187,9 @@ def run(ck: Check):
             ck.count("model_vs_python_mirror")
             if [[int(b) for b in r] for r in mv] != exp:
                 ck.broke("correspondence", "Model/ConvNet.eval_net vs reference mirror", "kernel evaluation differs from the Python mirror")
+    # parameter-update protocols: eval (and a fresh compile) follow the CURRENT logits whatever mechanism changed them
+    protocols.dense_protocol(ck, "raw", "")
+    protocols.conv_protocol(ck, "raw", "")
     return ck.finish()
 
 
